@@ -54,6 +54,34 @@ SUBS = [
     (r"Method::Get", "Method::Put"), (r"Http11", "Http10"),
     (r'b"GET"', 'b"GeT"'), (r'b"HTTP/1\.1"', 'b"HTTP/1.2"'),
 ]
+# second operator set (run with `--set 2`): error propagation dropped, loop control, trimming variants, searches from
+# the other end, event-flag disjuncts, casts, off-by-one ranges
+SUBS2 = [
+    (r"\)\?;", ");"), (r"\bcontinue;", ""), (r"\bbreak;", ""),
+    (r"\.trim\(\)", ".trim_start()"), (r"\.trim\(\)", ".trim_end()"),
+    (r"\.find\(", ".rfind("), (r"splitn\(2, ':'\)", "split(':')"), (r"split\(','\)", "split(';')"),
+    (r'contains\("identity"\)', 'contains("identity;")'), (r'"identity;q=0"', '"identity; q=0"'),
+    (r"\|\| e\.event_set\(\)\.contains\(epoll::EventSet::HANG_UP\)", ""),
+    (r"\|\| e\.event_set\(\)\.contains\(epoll::EventSet::READ_HANG_UP\)", ""),
+    (r"e\.event_set\(\)\.contains\(epoll::EventSet::ERROR\)\s*$", "false"),
+    (r" \| epoll::EventSet::READ_HANG_UP", ""),
+    (r"0\.\.delta_bytes", "1..delta_bytes"), (r"delta_bytes\.\.end_cursor", "delta_bytes..end_cursor - 1"),
+    (r"\.\.bytes_written\)", "..bytes_written - 1)"), (r"\.\.content_length\)", "..content_length - 1)"),
+    (r"as i32", "as i16 as i32"), (r"as u32", "as u16 as u32"),
+    (r"\.len\(\) - 1", ".len()"), (r"\.len\(\)", ".len() + 1"),
+    (r"\bSome\(", "None.or(Some("),
+    (r"else if", "if"), (r"\bif let Some", "while let Some"), (r"\bwhile let Some", "if let Some"),
+    (r"\.pop_parsed_request\(\)", ".pop_parsed_request().and(None)"),
+    (r"drain\(\.\.\)", "drain(..0)"), (r"\.take\(\)", ".clone()"),
+    (r"== 0\b", "== 1"), (r"\b0\b", "1"), (r"\b2\b", "3"),
+    (r"StatusCode::BadRequest", "StatusCode::InternalServerError"), (r"StatusCode::Continue", "StatusCode::OK"),
+    (r"Version::Http11", "Version::Http10"), (r"request_line\.http_version\(\)", "Version::Http11"),
+    (r"ConnectionState::WaitingForHeaders", "ConnectionState::WaitingForRequestLine"),
+    (r"ConnectionState::WaitingForBody", "ConnectionState::RequestReady"),
+    (r"ClientConnectionState::Closed", "ClientConnectionState::AwaitingIncoming"),
+    (r"line_start_index", "0"), (r"\*start \+= ", "*start = "), (r"\+= ", "= "), (r"-= ", "= "),
+]
+DELETABLE2 = re.compile(r"^\s*([\w.]+\.(make_ascii_lowercase|set_\w+|insert\w*|clear_write_buffer|enqueue_response|shift_buffer_left|retain)\([^;]*\)\??;|return [^;]+;)\s*$")
 DELETABLE = re.compile(r"^\s*(self\.[\w.]+ = [^;]+;|self\.[\w.]+\([^;]*\);|\*?\w+ = [^;]+;|[\w.]+\.(clear|push|push_back|extend|extend_from_slice|take|drain)\([^;]*\);)\s*$")
 
 
@@ -86,16 +114,22 @@ def mutants(path):
             code_for_ops = re.sub(r'"[^"]*"', lambda m: " " * len(m.group(0)), code)
         else:
             code_for_ops = code
-        for pat, rep in SUBS:
+        for pat, rep in (SUBS2 if OPSET == 2 else SUBS):
             for m in re.finditer(pat, code_for_ops):
                 new = l[:m.start()] + rep + l[m.end():]
                 if new != l:
                     yield (i, f"{pat} -> {rep}", new)
-        if DELETABLE.match(l):
+        if (DELETABLE2 if OPSET == 2 else DELETABLE).match(l):
             yield (i, "delete statement", re.match(r"^\s*", l).group(0) + "// deleted")
 
 
+OPSET = 1
+
+
 def main():
+    global OPSET
+    if "--set" in sys.argv:
+        OPSET = int(sys.argv[sys.argv.index("--set") + 1])
     files = list(CHECKS.keys())
     limit = None
     start = 0
@@ -111,7 +145,7 @@ def main():
     rc, st = sh(["git", "status", "--short"], cwd=REPO)
     if st.strip():
         print("/repo is not clean"); return 2
-    res = open(os.path.join(OUT, "results.jsonl"), "a")
+    res = open(os.path.join(OUT, "results.jsonl" if OPSET == 1 else f"results{OPSET}.jsonl"), "a")
     n = 0
     summary = {"not-compiling": 0, "killed-by-tests": 0, "caught": 0, "NOT-CAUGHT": 0}
     for path in files:
